@@ -164,6 +164,20 @@ func (P *Program) lookupIntrinsic(fn *ssa.Function, name string) (Intrinsic, boo
 		h, ok = P.intrinsics["zzverif."+fn.Name()]
 		return h, ok
 	}
+	// generated protobuf (gogoproto) marshalling code: typed blobs
+	switch fn.Name() {
+	case "Marshal", "Unmarshal", "Size":
+		if fn.Signature.Recv() != nil && fn.Syntax() != nil && strings.HasSuffix(P.Fset.Position(fn.Pos()).Filename, ".pb.go") {
+			switch fn.Name() {
+			case "Marshal":
+				return pbMarshal, true
+			case "Unmarshal":
+				return pbUnmarshal, true
+			case "Size":
+				return pbSize, true
+			}
+		}
+	}
 	return nil, false
 }
 
